@@ -20,6 +20,12 @@ def scenario(args):
     if small:     # IDs that are numerically equal to logical addresses the mesh hands out (0o1..0o5, 0o11.., 0o21..)
         ids = rng.sample([1, 2, 3, 4, 5, 9, 10, 11, 12, 13, 17, 18, 19, 20, 21, 25, 33, 41], nj)
     nodes = [dict(addr=0, kind="master", node_id=0)]
+    if loss == "deep":
+        # static leases (nodes that are not switched on) leave one level-1 slot and one slot below it: three joiners then
+        # end up in a chain 0o5 - 0o45 - 0o445, the last one joining through a LEVEL-2 relay
+        ids = [i for i in ids if i < 200][:nj] + [i for i in range(1, 200) if i not in ids][:max(0, nj - len([i for i in ids if i < 200]))]
+        nodes[0]["opts"] = dict(dhcp_dict={201: 0o1, 202: 0o2, 203: 0o3, 204: 0o4, 205: 0o15, 206: 0o25, 207: 0o35})
+        loss = 0
     for i in ids:
         nodes.append(dict(addr=0o4444, kind="mesh" if (kindmix and rng.random() < 0.5) else "meshnm", node_id=i))
     fate = None
@@ -122,6 +128,8 @@ def build(chk):
             jobs.append((nj, chk.seed * 9973 + len(jobs), 3000, 50, rng.choice([0.05, 0.15]), False))
     for nj in (1, 2):
         jobs.append((nj, chk.seed * 9973 + len(jobs), 3000, 100, "confirm-lost", False))
+    for rep in range(1 if quick else 3):
+        jobs.append((3, chk.seed * 9973 + len(jobs), rng.choice([3000, 40000]), 2500, "deep", rep % 2 == 1))
     return jobs
 
 
